@@ -102,6 +102,8 @@ pub struct EventSender<'a> {
     // resume this coroutine on another thread, it must not finish (and let the
     // cqueue go away) before `subscribe` has stopped using the cqueue
     kernel: AtomicBool,
+    // set by `subscribe`: the event of the current `send` was really published
+    sent: AtomicBool,
 }
 
 unsafe impl Send for EventSender<'_> {}
@@ -121,13 +123,20 @@ impl EventSender<'_> {
             yield_now();
         }
         self.extra.store(extra, Ordering::Relaxed);
+        self.sent.store(false, Ordering::Relaxed);
         yield_with(self);
+        // for a coroutine that got cancelled after the check above yield_with comes
+        // back without publishing the event: the bottom half must not run then
+        if !self.sent.load(Ordering::Relaxed) {
+            crate::cancel::trigger_cancel_panic();
+        }
     }
 }
 
 impl EventSource for EventSender<'_> {
     fn subscribe(&mut self, co: CoroutineImpl) {
         self.kernel.store(true, Ordering::Release);
+        self.sent.store(true, Ordering::Relaxed);
         self.cqueue.ev_queue.push(Event {
             id: self.id,
             token: self.token,
@@ -205,6 +214,7 @@ impl Cqueue {
             extra: 0.into(),
             cqueue: self,
             kernel: AtomicBool::new(false),
+            sent: AtomicBool::new(false),
         };
         let h = unsafe { spawn_unsafe(move || f(sender)) };
         let co = h.coroutine().clone();
